@@ -1,3 +1,6 @@
 pub mod audit;
 pub mod dag;
+pub mod driver;
+pub mod r#gen;
 pub mod model;
+pub mod replica;
